@@ -809,26 +809,29 @@ def f8_run(spec, tier, seed, scratch, stats):
     bad = good.replace(b'DATA', b'MISC')          # same size, different content
     hsets = [(('MD5',), ('SHA512',)), (('MD5',), ('MD5',)), (('MD5', 'SHA1'), ('SHA1', 'SHA512')), ((), ('SHA1',)),
              (('SHA1',), ())]
-    for (h1, h2), ok1, ok2, vpath in itertools.product(hsets, (True, False), (True, False), ('', 'a', 'a/b')):
-        def ent(rel, hs, ok):
-            return ('E', rm.file_entry('MANIFEST', rel, good if ok else bad, hs))
+    for (h1, h2), ok1, ok2, vpath, tag1 in itertools.product(hsets, (True, False), (True, False), ('', 'a', 'a/b'),
+                                                             ('MANIFEST', 'DATA')):
+        # tag1: the FIRST of the two entries is a MANIFEST entry or an ordinary DATA entry that happens to name the
+        # Manifest file (a file entry like any other: its checksums count, whoever loaded the file as a Manifest)
+        def ent(rel, hs, ok, tag='MANIFEST'):
+            return ('E', rm.file_entry(tag, rel, good if ok else bad, hs))
         if placement in ('top+mid', 'mid+top_order'):
             top = [('F', 'DATA', 'z', ('SHA1',)), ('M', 'a/Manifest', ('SHA1',))]
             mid = [('F', 'DATA', 'a/y', ('SHA1',)), ent('b/Manifest', h2, ok2)]
-            e1 = ent('a/b/Manifest', h1, ok1)
+            e1 = ent('a/b/Manifest', h1, ok1, tag1)
             top = ([e1] + top) if placement == 'top+mid' else (top + [e1])
             specs = [MSpec(TOP, top), MSpec('a/Manifest', mid)]
         elif placement == 'same_manifest':
             top = [('F', 'DATA', 'z', ('SHA1',)), ('F', 'DATA', 'a/y', ('SHA1',)),
-                   ent('a/b/Manifest', h1, ok1), ent('a/b/Manifest', h2, ok2)]
+                   ent('a/b/Manifest', h1, ok1, tag1), ent('a/b/Manifest', h2, ok2)]
             specs = [MSpec(TOP, top)]
         else:
             top = [('F', 'DATA', 'z', ('SHA1',)), ('F', 'DATA', 'a/y', ('SHA1',)),
-                   ent('a/b/Manifest', h1, ok1), ('M', 'Manifest.files', ('SHA1',))]
+                   ent('a/b/Manifest', h1, ok1, tag1), ('M', 'Manifest.files', ('SHA1',))]
             specs = [MSpec(TOP, top), MSpec('Manifest.files', [ent('a/b/Manifest', h2, ok2)])]
         sc = Scenario(files, specs, raw={'a/b/Manifest': good})
         tree = sc.build()
-        desc = (spec, h1, h2, ok1, ok2, vpath)
+        desc = (spec, h1, h2, ok1, ok2, vpath, tag1)
         case = {'tree': tree.to_json(), 'path': vpath, 'desc': repr(desc)}
         vs, v = check_case(case, scratch, stats)
         stats.case(desc, nontrivial=v.kind != 'dontcare')
